@@ -55,9 +55,9 @@ func (*c13Prop) Components() map[string]interface{} {
 
 func (*c13Prop) Plans(tier string) []Plan {
 	if tier == "quick" {
-		return []Plan{{Name: "trees", Workers: 12, Runs: 2500, MaxTime: 40e9, Size: 6}}
+		return []Plan{{Name: "trees", Workers: 12, Runs: 15000, MaxTime: 45e9, Size: 6}, {Name: "small-trees", Workers: 4, Runs: 15000, MaxTime: 45e9, Size: 3}}
 	}
-	return []Plan{{Name: "trees", Workers: 16, Runs: 40000, MaxTime: 420e9, Size: 9}, {Name: "small-trees", Workers: 8, Runs: 40000, MaxTime: 200e9, Size: 3}}
+	return []Plan{{Name: "trees", Workers: 16, Runs: 2000000, MaxTime: 600e9, Size: 9}, {Name: "small-trees", Workers: 16, Runs: 2000000, MaxTime: 240e9, Size: 3}}
 }
 
 var c13Interps = []string{"", "plain", "plain", "checker", "checker", "transformer", "both", "select0", "selectlast", "array", "libnil"}
